@@ -164,7 +164,7 @@ Judge(r) ==
      \o f(crash /\ rootop \in {"share", "publish"}, "C11")
      \o f(crash /\ rootop = "behavior", "C12")
      \o f(crash /\ rootop \in {"observe_on", "delay"}, "C07")
-     \o f(r.late /\ rootop \in {"subscribe_on", "delay_subscription"}, "C17")
+     \o f(r.late /\ rootop \in {"subscribe_on", "delay_subscription", "subject"}, "C17")      \* (late: also after is_closed() answered true)
      \o f(r.stuck, "C14")
      (* wait_for_end returns only when the source has terminated: the status asked right afterwards by the same thread is not "running" *)
      \o f(\E t \in 1..Len(C.threads) : \E i \in 1..(Len(C.threads[t]) - 1) :
